@@ -29,6 +29,10 @@ fn dec(bytes: &[u8]) -> String {
     crate::eval::eval_case(&format!("DEC {}", hex_of_bytes(bytes)))
 }
 
+/// Hard (non-Interrupted) I/O error kinds injected into reads / writes; the property treats them alike.
+pub const RFAIL_KINDS: [&str; 6] = ["F", "FT", "FW", "FE", "FB", "FD"];
+pub const WFAIL_KINDS: [&str; 5] = ["F", "FT", "FW", "FB", "FZ"];
+
 /// (first line incl. LF or everything, rest)
 fn first_line(content: &[u8]) -> (&[u8], &[u8]) {
     match content.iter().position(|b| *b == b'\n') {
@@ -43,7 +47,7 @@ fn rd_case(ctx: &mut Ctx, k: usize, content: &[u8], sched: &[String], class: &st
     let res = ctx.case(line.clone(), true, class);
     // monitor (only when no hard failure is scheduled): k reads return the decodings of the first
     // k lines in order and leave exactly the rest
-    if !sched.iter().any(|s| s == "F") {
+    if !sched.iter().any(|s| s.starts_with('F')) {
         let mut rest: &[u8] = content;
         let mut outs = vec![];
         for _ in 0..k {
@@ -114,7 +118,7 @@ fn gen_c15(ctx: &mut Ctx) {
         let ncalls = content.len() + 3;
         for at in 0..ncalls.min(if thorough { 200 } else { 40 }) {
             let mut sched: Vec<String> = (0..at).map(|i| if i % 5 == 4 { "I".to_string() } else { "D0".to_string() }).collect();
-            sched.push("F".to_string());
+            sched.push(RFAIL_KINDS[at % RFAIL_KINDS.len()].to_string());
             rd_case(ctx, *k, content, &sched, "hard-error-at-index");
         }
     }
@@ -138,7 +142,7 @@ fn gen_c15(ctx: &mut Ctx) {
         let sched: Vec<String> = (0..ns)
             .map(|_| match rng.below(8) {
                 0 => "I".to_string(),
-                1 if rng.chance(1, 4) => "F".to_string(),
+                1 if rng.chance(1, 4) => rng.pick(&RFAIL_KINDS).to_string(),
                 _ => format!("D{}", rng.below(20)),
             })
             .collect();
@@ -172,7 +176,7 @@ fn gen_c15(ctx: &mut Ctx) {
         }
         // fault at every call index with one-byte accepts
         for at in 0..full.len().min(if thorough { 120 } else { 30 }) {
-            for fault in ["F", "Z"] {
+            for fault in [WFAIL_KINDS[at % WFAIL_KINDS.len()], "Z"] {
                 let mut sched: Vec<String> = (0..at).map(|_| "A0".to_string()).collect();
                 sched.push(fault.to_string());
                 let line = format!("WR {} {} {} {}", a, t, hex_of_bytes(d), sched.join(" "));
@@ -231,6 +235,17 @@ fn reply_tapes(rng: &mut Rng, a: u16) -> Vec<(Vec<u8>, &'static str)> {
     two.extend(enc_msg(&format!("RS.{}.PSH", a)));
     two.extend(rng.bytes(3));
     v.push((two, "two-frames-and-trailing"));
+    // replies at and just below the maximum line length, each followed by another line: the read must
+    // take the whole line including its CRLF and nothing of the next one
+    for len in [255usize, 254, 253, 128] {
+        let mut long = enc(a, 0, &rng.bytes(len), true);
+        long.extend(enc_msg(&format!("RS.{}.PLD", a)));
+        v.push((long, "max-length-reply-and-next"));
+    }
+    let mut lf_only = enc(a, 9, &rng.bytes(255), false);
+    lf_only.push(b'\n');
+    lf_only.extend(enc_msg(&format!("RS.{}.PSH", a)));
+    v.push((lf_only, "max-length-reply-bare-lf"));
     v
 }
 
@@ -247,8 +262,8 @@ fn sb_case(ctx: &mut Ctx, m: &str, tape: &[u8], rs: &[String], ws: &[String], cl
     let frame = enc_msg(m);
     let out = bytes_of_hex(parts[1]);
     let rem = bytes_of_hex(parts[2]);
-    let wfault = ws.iter().any(|s| s == "F" || s == "Z");
-    let rfault = rs.iter().any(|s| s == "F");
+    let wfault = ws.iter().any(|s| s.starts_with('F') || s == "Z");
+    let rfault = rs.iter().any(|s| s.starts_with('F'));
     let mut verdict: Option<String> = None;
     if !wfault && out != frame {
         verdict = Some("bytes written are not exactly the message's frame with CRLF".to_string());
@@ -307,12 +322,12 @@ fn gen_c16(ctx: &mut Ctx) {
         let flen = enc_msg(m).len();
         for at in [0usize, 1, 2, flen / 2, flen - 1] {
             let mut ws: Vec<String> = (0..at).map(|_| "A0".to_string()).collect();
-            ws.push(if at % 2 == 0 { "F" } else { "Z" }.to_string());
+            ws.push(if at % 2 == 0 { WFAIL_KINDS[(mi + at / 2) % WFAIL_KINDS.len()] } else { "Z" }.to_string());
             sb_case(ctx, m, tape, &[], &ws, "write-failure");
         }
         for at in [0usize, 1, 5, tape.len().saturating_sub(1)] {
             let mut rs: Vec<String> = (0..at).map(|i| if i % 4 == 3 { "I".to_string() } else { "D0".to_string() }).collect();
-            rs.push("F".to_string());
+            rs.push(RFAIL_KINDS[(mi + at) % RFAIL_KINDS.len()].to_string());
             sb_case(ctx, m, tape, &rs, &[], "read-failure");
         }
         // fragmentation + interrupts without failure
@@ -405,6 +420,14 @@ fn gen_c17(ctx: &mut Ctx) {
         (b":00\r\n".to_vec(), "invalid"),
         (b"\r\n".to_vec(), "invalid"),
         (vec![], "empty"),
+        ([b"\r\n".to_vec(), enc_msg("HE.3")].concat(), "invalid-then-valid"),
+        ([b"\n".to_vec(), enc_msg("RO.3.RCF")].concat(), "invalid-then-valid"),
+        ([b" \r\n".to_vec(), enc_msg("QS.3")].concat(), "invalid-then-valid"),
+        ([b"\t\n".to_vec(), enc_msg("HE.3")].concat(), "invalid-then-valid"),
+        ([b"\r\n\r\n".to_vec(), enc_msg("HE.3")].concat(), "invalid-then-valid"),
+        ([b":00\r\n".to_vec(), enc_msg("RO.3.RCF")].concat(), "invalid-then-valid"),
+        ([b"#comment\r\n".to_vec(), enc_msg("HE.3")].concat(), "invalid-then-valid"),
+        ([enc(3, 2, &(0..255).collect::<Vec<u8>>(), true), enc_msg("HE.3")].concat(), "max-length-then-valid"),
         ({
             let mut v = enc_msg("HE.3");
             let n = v.len();
@@ -420,17 +443,29 @@ fn gen_c17(ctx: &mut Ctx) {
     ];
     for (tape, class) in &tapes {
         for ws in [vec![], vec!["A0".to_string(), "I".to_string(), "A3".to_string()], vec!["F".to_string()]] {
-            let steps = if *class == "three-lines" { 3 } else { 1 };
+          for steps in if *class == "three-lines" { vec![3] } else if class.ends_with("-then-valid") { vec![1, 2] } else { vec![1] } {
             let line = format!("OD 1 3 M | | {} {} {}", hex_of_bytes(tape), steps, ws.join(" "));
             let line = line.trim_end().to_string();
             let res = ctx.case(line.clone(), true, class);
             let mut verdict: Option<String> = None;
-            if class.starts_with("invalid") || *class == "empty" || *class == "bad-checksum" {
+            if class.ends_with("-then-valid") && steps == 1 {
+                // exactly one line is accounted for per call: the rest of the tape is still in the port
+                let (_, rest) = first_line(tape);
+                let parts: Vec<&str> = res.split(" | ").collect();
+                if parts.len() < 3 || bytes_of_hex(parts[2].split(' ').next().unwrap_or("-")) != rest {
+                    verdict = Some("the bridge did not consume exactly one line".to_string());
+                }
+                if class.starts_with("invalid") && (!res.starts_with("COMM ") || !res.contains("fwd=-")) {
+                    verdict = Some("an undecodable line must be a communication error that does not touch the bus".to_string());
+                }
+            }
+            if (class.starts_with("invalid") && !class.ends_with("-then-valid")) || *class == "empty" || *class == "bad-checksum" {
                 if !res.starts_with("COMM ") || !res.contains("fwd=-") || !res.ends_with("UNC.-.0.cbf29ce484222325") {
                     verdict = Some("an undecodable line must be a communication error that does not touch the bus".to_string());
                 }
             }
             ctx.monitor(verdict.is_none(), "C17-bridge", &line, verdict.as_deref().unwrap_or(""));
+          }
         }
     }
     // bridge after some traffic
@@ -463,8 +498,16 @@ fn gen_c18(ctx: &mut Ctx) {
     }
     cases.push((format!("QS.{}", a), enc(a, 9, &[1], true)));
     cases.push((format!("QS.{}", a), b"garbage\r\n".to_vec()));
-    for (m, tape) in cases {
-        let line = format!("TM {} {}", m, hex_of_bytes(&tape));
+    // the same exchanges on a port whose transfers take real time (paced kinds and a few unpaced ones)
+    let mut timed: Vec<(String, Vec<u8>, bool)> = cases.iter().map(|(m, t)| (m.clone(), t.clone(), false)).collect();
+    for (m, tape) in &cases {
+        let paced_reply = tape.len() > 10 && { let d = dec(tape); d.ends_with(".13") || d.ends_with(".11") };
+        if m.starts_with("SD.") || paced_reply || m == "GB.3" || m == "DC.2" || (m.starts_with("QS.") && dec(tape).ends_with(".10")) || m.starts_with("RO.3.RPX") {
+            timed.push((m.clone(), tape.clone(), true));
+        }
+    }
+    for (m, tape, slow) in timed {
+        let line = format!("TM {} {}{}", m, hex_of_bytes(&tape), if slow { " slow" } else { "" });
         let res = ctx.case(line.clone(), true, &m[..2]);
         // property-level monitor, independent of the model
         let want_send = m.starts_with("SD.") as u8;
@@ -482,25 +525,30 @@ fn gen_c18(ctx: &mut Ctx) {
 
 fn gen_c20(ctx: &mut Ctx) {
     let bauds: Vec<String> = (0..11).map(|i| i.to_string()).chain(["O1".to_string(), "O19200".to_string(), "O4000000".to_string()]).collect();
+    // which error the refusing device call returns: the constructor must hand back THAT error whatever its kind
+    // (N NoDevice, V InvalidInput, Io: I Interrupted, W WouldBlock, T TimedOut, O Other, P PermissionDenied)
+    let kinds = ["N", "V", "I", "W", "T", "O", "P"];
+    let mut fails: Vec<String> = vec!["none".to_string()];
+    for f in ["read", "baud", "write", "timeout"] {
+        for k in kinds {
+            fails.push(format!("{}:{}", f, k));
+        }
+    }
+    let mut n = 0usize;
     for baud in &bauds {
         for cs in ["5", "6", "7", "8"] {
             for par in ["N", "O", "E"] {
                 for stop in ["1", "2"] {
                     for flow in ["N", "S", "H"] {
-                        for fail in ["none", "read", "baud", "write", "timeout"] {
-                            for ctor in ["CFG.1234", "BUS", "ODK"] {
-                                let line = format!("PT {} {} {} {} {} {} {}", baud, cs, par, stop, flow, fail, ctor);
-                                let res = ctx.case(line.clone(), true, fail);
-                                let want = if fail == "none" {
-                                    format!("OK 7 8 N 1 N {}", match ctor {
-                                        "BUS" => "5000",
-                                        "ODK" => "10000",
-                                        _ => "1234",
-                                    })
-                                } else {
-                                    format!("ER {}", fail)
-                                };
-                                ctx.monitor(res == want, "C20-port-setup", &line, &res);
+                        n += 1;
+                        for (fi, fail) in fails.iter().enumerate() {
+                            // every prior setting with no failure and with every failure point; the error kinds rotate
+                            // over the settings product (each kind x point meets >= 100 prior settings); thorough: all
+                            if fi > 0 && !ctx.tier_thorough && (fi - 1) % kinds.len() != n % kinds.len() {
+                                continue;
+                            }
+                            for ctor in ["CFG.1.234000000", "BUS", "ODK"] {
+                                pt_case(ctx, &format!("PT {} {} {} {} {} {} {}", baud, cs, par, stop, flow, fail, ctor), fail, ctor);
                             }
                         }
                     }
@@ -508,5 +556,33 @@ fn gen_c20(ctx: &mut Ctx) {
             }
         }
     }
-    ctx.notes.insert("exhaustive".into(), "full product of 14 bauds x 4 char sizes x 3 parities x 2 stop bits x 3 flow controls x 5 failure points x 3 constructors".into());
+    // the caller's timeout is applied exactly, whatever its size or resolution (configure_port used directly)
+    let timeouts: [(u64, u32); 16] = [
+        (0, 0), (0, 1), (0, 999), (0, 521_000), (0, 2_500_000), (0, 999_999_999), (1, 0), (1, 1), (5, 0), (10, 0),
+        (4_294_967, 295_000_000), (4_294_967, 296_000_000), (4_294_968, 0), (86_400 * 50, 500), (u64::MAX / 1000, 999_999_999),
+        (u64::MAX, 999_999_999),
+    ];
+    for (i, (secs, nanos)) in timeouts.iter().enumerate() {
+        let prior = [("0", "7", "E", "2", "S"), ("7", "8", "N", "1", "N"), ("O31250", "5", "O", "2", "H")][i % 3];
+        for fail in ["none", "timeout:V", "write:N"] {
+            let ctor = format!("CFG.{}.{}", secs, nanos);
+            pt_case(ctx, &format!("PT {} {} {} {} {} {} {}", prior.0, prior.1, prior.2, prior.3, prior.4, fail, ctor), fail, &ctor);
+        }
+    }
+    ctx.notes.insert("exhaustive".into(), "full product of 14 bauds x 4 char sizes x 3 parities x 2 stop bits x 3 flow controls x (no failure + 4 failure points) x 3 constructors; 7 error kinds per failure point (rotating over the settings in the quick tier, all in thorough); 16 timeouts from 0 ns to Duration::MAX".into());
+}
+
+fn pt_case(ctx: &mut Ctx, line: &str, fail: &str, ctor: &str) {
+    let res = ctx.case(line.to_string(), true, fail.split(':').next().unwrap());
+    let want = if fail == "none" {
+        let p: Vec<&str> = ctor.split('.').collect();
+        format!("OK 7 8 N 1 N {}", match p[0] {
+            "BUS" => "5000000000".to_string(),
+            "ODK" => "10000000000".to_string(),
+            _ => (p[1].parse::<u128>().unwrap() * 1_000_000_000 + p[2].parse::<u128>().unwrap()).to_string(),
+        })
+    } else {
+        format!("ER {}", fail.split(':').next().unwrap())
+    };
+    ctx.monitor(res == want, "C20-port-setup", line, &res);
 }
